@@ -110,6 +110,24 @@ def run(ck):
                               "replay": "write the file, then echo 'x hist <ops joined by ; with , between fields>' | harness/drv.cpp built with the flags above against /repo"})
                 break
     dist["sequence-on-one-unchanged-file"] = len(hl)
+    # the encrypted file arrives through a PIPE (not seekable: positioning fails): whatever the operation then does, it must not accept
+    # a wrong key or write plaintext (even the right key may be refused there; that is not this property's business)
+    pl = []
+    for j, (c, f) in enumerate(small[:6 if big else 3]):
+        for b in (0, 64, 127, r.randrange(128)):
+            k2 = bytearray(c.key); k2[b // 8] ^= 1 << (b % 8)
+            pl.append("pv%d_%d ver %d %s %s pipe" % (j, b, c.T, bytes(k2).hex(), f.hex()))
+            pl.append("pd%d_%d dec %d %s %s pipe" % (j, b, c.T, bytes(k2).hex(), f.hex()))
+    po = wv.run_lines([exe], pl, env=env)
+    for l in pl:
+        cid = l.split()[0]
+        head, kv = split_impl(po.get(cid, "(no output)"))
+        ck.cov["evaluations"] += 1
+        if head.startswith("OK") or kv.get("outlen", "0") != "0":
+            ck.violation("a wrong key was accepted (or output written) when the encrypted file arrives through a pipe: %s" % head[:30],
+                         {"class": None, "case": l[:3000], "implementation": po.get(cid, "")[:300], "driver_flags": ck.impl_flags, "replay": "echo '<case>' | harness/drv.cpp built with the flags above against /repo"})
+            break
+    dist["input-through-a-pipe"] = len(pl)
     # tag comparisons under the right key and under wrong keys AT THE SAME TIME from several threads of one process: a wrong key
     # must be refused whatever another thread is computing (key material kept in storage shared between calls)
     import hmac as pyhmac, hashlib
